@@ -8,6 +8,12 @@ use crate::verif_hooks::*;
 /// each identifier-only or numbered from {-1,0,1,2,5}; with and without extension marker.
 pub fn contract_enumerated_parser<C: Ctx>(cx: &mut C, max_root: usize, max_add: usize) {
     const ALPHABET: [Option<i128>; 6] = [None, Some(-1), Some(0), Some(1), Some(2), Some(5)];
+    // C13-adjacent: comments between the tokens of an enumeration must not change names or numbers
+    // 0 none, 1 `-- c --` after each comma, 2 `/* c */` after each comma, 3 `--c--` inside the parentheses right before the number,
+    // 4 nested block comment whose inner opener is followed by `/`
+    let comments = cx.choose(5);
+    let between = ["", " -- c -- ", " /* c */ ", "", " /* a /*/ b */ c */ "][comments];
+    let in_parens = if comments == 3 { "--c--" } else { "" };
     let n_root = 1 + cx.choose(max_root);
     let marker = cx.any_bool();
     let n_add = if marker { cx.choose(max_add + 1) } else { 0 };
@@ -19,9 +25,9 @@ pub fn contract_enumerated_parser<C: Ctx>(cx: &mut C, max_root: usize, max_add: 
         let w = ALPHABET[cx.choose(6)];
         root.push(w);
         let name = format!("r{i}");
-        if i > 0 { src.push_str(", "); }
+        if i > 0 { src.push_str(", "); src.push_str(between); }
         src.push_str(&name);
-        if let Some(v) = w { src.push_str(&format!("({v})")); }
+        if let Some(v) = w { src.push_str(&format!("({in_parens}{v})")); }
         names.push(name);
     }
     if marker {
@@ -31,12 +37,14 @@ pub fn contract_enumerated_parser<C: Ctx>(cx: &mut C, max_root: usize, max_add: 
             adds.push(w);
             let name = format!("x{i}");
             src.push_str(", ");
+            src.push_str(between);
             src.push_str(&name);
-            if let Some(v) = w { src.push_str(&format!("({v})")); }
+            if let Some(v) = w { src.push_str(&format!("({in_parens}{v})")); }
             names.push(name);
         }
     }
     src.push_str(" }");
+    cx.describe(|| src.clone());
     let parsed = enumerated(src.as_str().into());
     match parsed {
         Ok((_, ASN1Type::Enumerated(e))) => {
